@@ -317,7 +317,7 @@ class Flow:
 # ---------------------------------------------------------------------------
 # (B) bounded exhaustive enumerator: skeletons x canonical name fillings
 
-FULL = (('asg', 0), ('asg', 1), ('asg', 2), ('tup', 0), ('tup', 1), ('tup', 2), ('cmp', 0), ('cmp', 1),
+FULL = (('asg', 0), ('asg', 1), ('asg', 2), ('tup', 0), ('tup', 1), ('tup', 2), ('cmp', 0), ('cmp', 1), ('cmp', 2),
         ('ret', 0), ('ret', 1), ('ret', 2))
 OWN = {'if1': 0, 'for': 1, 'fz': 2, 'whl': 0, 'whn': 1, 'wth': 1}
 DEPTH = 2
@@ -327,7 +327,9 @@ def nslots(s):
     k = s[0]
     if k == 'asg':
         return 1 + s[1]
-    if k in ('tup', 'cmp'):
+    if k == 'cmp':
+        return 2 + (1 if s[1] else 0)
+    if k == 'tup':
         return 2 + s[1]
     if k == 'ret':
         return s[1]
@@ -384,7 +386,7 @@ def slots(b, out):
         elif k == 'tup':
             out += ['D', 'D<'] + ['U', 'U<'][:s[1]]
         elif k == 'cmp':
-            out += ['D', 'D'] + (['U!'] if s[1] else [])
+            out += ['D', 'D'] + (['U!'] if s[1] == 1 else ['U'] if s[1] == 2 else [])
         elif k == 'ret':
             out += ['U', 'U<'][:s[1]]
         elif k == 'ife':
@@ -442,8 +444,13 @@ def render(b, fill, names=NAMES):
                 lines.append(f'{pad}({x}, {y}) = ' + ('(0, 1)' if not r else f'({r[0]}, 0)' if len(r) == 1 else f'({r[0]}, {r[1]})'))
             elif k == 'cmp':
                 x, y = nm(), nm()
-                cnt['ys'] = 1
-                lines.append(f'{pad}{x} = [{f"({y}, {nm()})" if s[1] else y} for {y} in ys]')
+                if s[1] == 2:
+                    # the iterable is a program name (possibly the comprehension's own target: it is evaluated
+                    # in the enclosing scope, where that name may be unbound)
+                    lines.append(f'{pad}{x} = [{y} for {y} in {nm()}]')
+                else:
+                    cnt['ys'] = 1
+                    lines.append(f'{pad}{x} = [{f"({y}, {nm()})" if s[1] else y} for {y} in ys]')
             elif k == 'ret':
                 lines.append(f'{pad}return {rhs([nm() for _ in range(s[1])])}')
             elif k == 'pass':
@@ -887,7 +894,7 @@ def selftest():
             for fill in fillings(slots(b, [])):
                 texts.add(render(b, fill))
                 n += 1
-    assert n == len(texts) == 3699, (n, len(texts))
+    assert n == len(texts) == 4310, (n, len(texts))
     assert '@fp.fpy\ndef main(xs0):\n    for a in xs0:\n        pass\n    return a\n' in texts
     # 3. the run-time detectors see what they must see on this tree: delete a binding / the final return
     #    from the AST of an accepted function (bypassing the front end) and call it
